@@ -32,4 +32,10 @@ def check(ctx):
     d = pl.args.defaults
     ok = ok and any(src(x).replace(" ", "") == "(CRLF,LF,CR)" for x in d)
     ctx.check(ok, "T6-eols", pe, "event lines end at CRLF, LF or CR", "")
+    ctx.rule("T1-consume", "event-stream bytes are deleted only after a complete line was found")
+    ctx.rule("T1-scan", "line searches cover the whole unconsumed buffer")
+    ctx.rule("T1-wait", "a buffer prefix is read only after that many bytes are present")
+    _http.delete_discipline(ctx, "T1-consume")
+    _http.scan_offsets(ctx, "T1-scan")
+    _http.wait_before_read(ctx, "T1-wait")
     defect_scope(ctx, "D-scope", [m for m in E.methods.values()], max_depth=1, floor=5, label="scope: EventSource")
